@@ -64,6 +64,8 @@ impl SnmpPriv for DesKey {
         for (idx, (x, y)) in self.priv_params.iter().zip(self.pre_iv.iter()).enumerate() {
             iv[idx] = x ^ y;
         }
+        // Start from the empty buffer
+        self.buf.reset();
         // Add padding
         self.buf.push(&PADDING)?;
         // Serialize
